@@ -11,6 +11,7 @@ import (
 	"sort"
 	"strconv"
 	"strings"
+	"sync"
 	"time"
 
 	"golang.org/x/tools/go/ssa"
@@ -325,12 +326,44 @@ func cmdCheck(args []string) {
 
 	// vacuity: assumptions of every unit must be satisfiable
 	var vacuous []string
+	{
+		var mu sync.Mutex
+		var wg sync.WaitGroup
+		sem := make(chan struct{}, 12)
+		for _, r := range reports {
+			if r.entry.Mode == "lemma" || r.u.unsup != "" {
+				continue
+			}
+			wg.Add(1)
+			go func(r *unitReport) {
+				defer wg.Done()
+				sem <- struct{}{}
+				defer func() { <-sem }()
+				if st := r.u.vacuityCheck(work, 5*time.Second); st == "unsat" {
+					mu.Lock()
+					vacuous = append(vacuous, r.u.name)
+					mu.Unlock()
+				}
+			}(r)
+		}
+		wg.Wait()
+		sort.Strings(vacuous)
+	}
+
+	// a function whose claimed obligations are gone because the function (or its contract) can no longer be
+	// interpreted: the contract fails on this code, which a deductive verifier reports as a failed verification
 	for _, r := range reports {
-		if r.entry.Mode == "lemma" || r.u.unsup != "" {
+		if r.u.unsup == "" || *writeClaims {
 			continue
 		}
-		if st := r.u.vacuityCheck(work, 5*time.Second); st == "unsat" {
-			vacuous = append(vacuous, r.u.name)
+		lost := 0
+		for _, c := range missing {
+			if strings.HasPrefix(c, r.u.name+"#") {
+				lost++
+			}
+		}
+		if lost > 0 {
+			problems = append(problems, fmt.Sprintf("obligation=%s#contract (%d claimed obligations can no longer be generated: %s)", r.u.name, lost, r.u.unsup))
 		}
 	}
 
@@ -357,7 +390,11 @@ func cmdCheck(args []string) {
 		exit = 1
 	}
 	for _, p := range problems {
-		path := filepath.Join(replayDir, "problem-"+sanitize(p)+".txt")
+		short := p
+		if i := strings.Index(short, " ("); i > 0 {
+			short = short[:i]
+		}
+		path := filepath.Join(replayDir, "problem-"+sanitize(strings.TrimPrefix(short, "obligation="))+".txt")
 		os.WriteFile(path, []byte(p+"\n"), 0o644)
 		fmt.Printf("VIOLATION property=%s replay=%s %s no-failing-input-found\n", *prop, path, p)
 		exit = 1
@@ -411,6 +448,7 @@ func cmdCheck(args []string) {
 		os.WriteFile(filepath.Join(*verif, "evidence", *prop+".json"), data, 0o644)
 	}
 	fmt.Printf("property %s: %d obligations, %d discharged, %d known findings, %d not claimed (undecided), %d violations, %.1fs\n", *prop, nObl, nDis, len(knownObls), len(undecided), len(viols)+len(problems), time.Since(t0).Seconds())
+	os.RemoveAll(work)
 	os.Exit(exit)
 }
 
@@ -465,7 +503,30 @@ func writeClaimFiles(verif, prop string, reports []*unitReport, findingFor func(
 
 // vacuityCheck: the assumptions (facts) of the unit together with the entry must be satisfiable
 func (u *Unit) vacuityCheck(dir string, timeout time.Duration) string {
+	// first without the quantified facts (a sat answer is reliable there), then with all facts: an unsat answer
+	// of either query means that every obligation of the unit would be discharged vacuously
+	if st := u.vacuityQuery(dir, timeout, false); st == "unsat" {
+		return st
+	}
+	hasQ := false
+	for _, f := range u.facts {
+		if strings.Contains(f, "(forall") || strings.Contains(f, "(exists") {
+			hasQ = true
+		}
+	}
+	if hasQ {
+		if st := u.vacuityQuery(dir, timeout, true); st == "unsat" {
+			return st
+		}
+	}
+	return "sat"
+}
+
+func (u *Unit) vacuityQuery(dir string, timeout time.Duration, withQuant bool) string {
 	o := &Obl{Name: u.name + "#vacuity", Cond: "true", Goal: "false"}
+	if withQuant {
+		o.Name += "q"
+	}
 	// use all facts: pretend every symbol is relevant by conjoining nothing; buildQuery slices by goal
 	// symbols, so put all fact symbols into Extra-free goal: we simply ask for sat of all facts.
 	var sb strings.Builder
@@ -480,8 +541,8 @@ func (u *Unit) vacuityCheck(dir string, timeout time.Duration) string {
 		sb.WriteString(d + "\n")
 	}
 	for _, f := range u.facts {
-		if strings.Contains(f, "(forall") || strings.Contains(f, "(exists") {
-			continue // quantified facts make sat answers unreliable; they are definitions over fresh symbols
+		if !withQuant && (strings.Contains(f, "(forall") || strings.Contains(f, "(exists")) {
+			continue // quantified facts make sat answers unreliable
 		}
 		sb.WriteString("(assert " + f + ")\n")
 	}
